@@ -137,21 +137,23 @@ class Ctx:
         self._an = {}
 
     def an(self, fn):
-        key = (fn.path, bool(fn.j.get("flat")))
+        key = (fn.path, fn.j.get("flat") or False)
         a = self._an.get(key)
         if a is None:
             a = Analysis(fn)
             self._an[key] = a
         return a
 
-    def flat(self, fn):
-        """`fn` with every crate-local callee spliced in (anchors included) and
+    def flat(self, fn, keep=()):
+        """`fn` with every crate-local callee spliced in (anchors included, except
+        the paths in `keep`, which stay calls) and
         jump-threaded: the behaviour of an entry point as one body, independent
         of how it is cut into helper functions.  Closures and unresolved trait
         calls stay calls."""
         if not hasattr(self, "_flat"):
             self._flat = {}
-        f = self._flat.get(fn.path)
+        fkey = (fn.path, tuple(sorted(keep)))
+        f = self._flat.get(fkey)
         if f is None:
             import copy
             import inline
@@ -164,15 +166,16 @@ class Ctx:
                 by_path.setdefault(g.path, g.j)
             stats = {}
             for _ in range(6):
-                if not inline.inline_into(fj, by_path, set(), stats):
+                if not inline.inline_into(fj, by_path, set(keep), stats):
                     break
             try:
                 thread.thread_fn(fj)
             except Exception as exc:
                 fj["thread_error"] = str(exc)
             fj["flat_inlined"] = stats.get(fn.path, [])
+            fj["flat"] = "flat:" + ",".join(sorted(keep))
             f = Fn(fj, self.facts)
-            self._flat[fn.path] = f
+            self._flat[fkey] = f
         return f
 
     # -- lookups that do not depend on local names ----------------------
